@@ -7,7 +7,7 @@ export RUSTUP_TOOLCHAIN=1.88.0 CARGO_NET_OFFLINE=true
 cd "$WT" || exit 2
 [ -f "$OUT/patch.diff" ] || { echo "no patch"; exit 2; }
 crates=$(grep '^+++ b/crates/' "$OUT/patch.diff" | sed 's:^+++ b/crates/\([^/]*\)/.*:\1:' | sort -u)
-cmd=$(grep -m1 -oE 'cargo (nextest run|test) [^`]*--test [A-Za-z0-9_]+[^`]*' "$OUT/demo.txt" | sed 's/`.*//; s/)[[:space:]]*$//')
+cmd=$(grep -m1 -oE 'cargo (nextest run|test) [^`]*--test [A-Za-z0-9_]+[^`]*' "$OUT/demo.txt" | sed 's/`.*//; s/[[:space:]]*(.*$//; s/)[[:space:]]*$//')
 [ -n "$cmd" ] || { echo "no demo command found in demo.txt"; exit 2; }
 case "$cmd" in *--offline*) ;; *) cmd="$cmd --offline";; esac
 demo_files=$(git status --porcelain | grep '^??' | awk '{print $2}' | grep -E '^crates/.*\.rs$')
